@@ -63,6 +63,21 @@ var histProgs = []string{
 	"numbers(a%6+2).fsm((s,x)->goto((s.state+x+b)%3)).map(s->s.state).string()",
 	"numbers(a%5+2).cross([b,1],(p,q)->p*q).sum()+numbers(a%4+2).combine3((p,q,r)->p+q+r+b).size()",
 	"(if a>b then (x->x+a) else (x->x*b))(3)+(x->y->z->x*100+y*10+z)(a)(b)(1)",
+	// methods that return functions or aggregate records
+	"let ip=[{x:0,y:0},{x:1,y:10},{x:2,y:15},{x:4,y:0}].createInterpolation(p->p.x,p->p.y); ip(a%5)*1000+ip(b/2)",
+	"[{x:0,y:b},{x:1,y:a},{x:2,y:a+b}].createInterpolation(p->p.x,p->p.y)(0.5)",
+	"numbers(a%5+3).map(i->{x:i,y:i*b+1}).linearReg(p->p.x,p->p.y).a",
+	"numbers(a%6+2).mean()+numbers(b+2).map(x->x*2).orderRev(x->x).first()",
+	"numbers(a%7+2).groupByInt(x->x%3).size()+numbers(a%5+2).uniqueInt(x->x%2).size()+numbers(a%5+2).map(x->\"s\"+x%2).groupByString(s->s).size()+numbers(a%5+2).map(x->\"s\"+x%3).uniqueString(s->s).size()",
+	"numbers(a%6+3).movingWindow(x->x).map(l->l.size()).string()",
+	"numbers(a%5+3).movingWindowRemove(l->l.size()>b+1).map(l->l.size()).string()",
+	"numbers(a%6+3).iirApply({initial: x->x, filter: (i,j,l)->j-i+l+b}).last()",
+	"numbers(a%5+2).replaceList(l->l.size()+b)",
+	"(\"12\"+a).toInt()+(\"1.5\").toFloat()+(\"a=b\"+b).behind(\"=\").len()",
+	"floor(a/3)+ceil(b/2)+trunc(a/2)+int(sqrt(a*a))+(if isInt(a) then 1 else 0)+(if isFloat(a/2) then 1 else 0)+round(exp(0)+sin(0)+cos(0)+ln(1)+log10(1))",
+	"numbers(a%9+3).binning(0,2,3,x->x,x->1+b).string()",
+	"let lp=createLowPass(\"f\", p->p.t, p->p.v, 2); numbers(a%5+2).map(i->{t:i,v:i*b}).iirApply(lp).map(p->p.f).last()",
+	"goto(a%3).state+{state:b}.state",
 }
 
 func genHistArgs(r *rng) []Arg {
